@@ -10,6 +10,7 @@ import shutil
 
 import core
 import emu
+import histgen
 import obs
 import refemu
 import viewcmp
@@ -63,6 +64,9 @@ def sym_to_event(keys, sym):
         return k, "OAs", obs.i32(sym[2])
     if op == "R":
         return k, "OAr", obs.i32(sym[2], keys[sym[3]][2])
+    if op in ("O", "I"):
+        # kernel context switch out / in: the thread stays Running on its CPU for the base model
+        return k, "KC" + op, b""
     raise ValueError(sym)
 
 
@@ -80,7 +84,8 @@ def model_run(desc, keys, word):
     for n, sym in enumerate(word):
         k, mcv, pl = sym_to_event(keys, sym)
         try:
-            sys_.ovni_event(sys_.thread(k), mcv, pl)
+            if mcv[0] != "K":
+                sys_.ovni_event(sys_.thread(k), mcv, pl)
         except refemu.Reject as r:
             return n, sys_, tv, cv, str(r)
         tv.append(sys_.thread_view())
@@ -174,7 +179,8 @@ def judge(shape, word, label):
     wstr = " ".join(":".join(str(x) for x in s) for s in word)
     try:
         hist = to_history(keys, word)
-        res, out = viewcmp.run_history(build, wd, desc, hist)
+        kern = any(sym[1] in ("O", "I") for sym in word)
+        res, out = viewcmp.run_history(build, wd, desc, hist, require=histgen.require_of("K") if kern else None)
         if res.timeout:
             return ("inconclusive", "timeout"), None
         if res.sig or res.rc not in (0, 1):
@@ -248,10 +254,22 @@ def gen_random(chk, i):
     word = []
     want_bad = rng.random() < 0.35
     sys_ = refemu.System(desc)
+    # a third of the histories also carry kernel context switches: a Running thread is switched out
+    # (KCO), emits nothing until it is switched in again (KCI), and meanwhile stays Running on its CPU
+    # as far as occupancy and the CPU rows are concerned
+    kernel = (i % 3 == 0)
+    outs = set()
     for n in range(L):
         ti = rng.randrange(len(keys))
         k = keys[ti]
         th = sys_.thread(k)
+        if ti in outs:
+            if rng.random() < 0.4:
+                outs.discard(ti); word.append((ti, "I"))
+            continue
+        if kernel and th.state == refemu.RUNNING and rng.random() < 0.2:
+            outs.add(ti); word.append((ti, "O"))
+            continue
         cands = []
         cpus = list(range(ncpu[k[0]])) + [-1, -1]
         if th.state == refemu.UNKNOWN:
@@ -280,6 +298,7 @@ def gen_random(chk, i):
         if r[0] is not None:
             break
         sys_ = r[1]
+    word = word + [(ti, "I") for ti in sorted(outs)]
     bad, sys_, _, _, _ = model_run(desc, keys, word)
     if bad is None:
         word = word + completion(sys_, keys)
